@@ -8,6 +8,7 @@ import (
 	"encoding/json"
 	"fmt"
 	"os"
+	"os/exec"
 	"path/filepath"
 	"regexp"
 	"runtime"
@@ -63,6 +64,8 @@ type Check struct {
 	replay   *Replay
 	replayed bool
 	worker   string // non-empty: this process is a worker for that part
+	only     string // non-empty: this process runs just that part for a parent check process ...
+	resOut   string // ... and writes its result there
 	sched    bool   // the part being explored needs a synctest bubble
 	internal []string
 	knownHit map[string]string
@@ -83,6 +86,12 @@ func New(id, level string, args []string) *Check {
 		case "--worker":
 			i++
 			k.worker = args[i]
+		case "--only":
+			i++
+			k.only = args[i]
+		case "--result-out":
+			i++
+			k.resOut = args[i]
 		case "--replay":
 			i++
 			data, err := os.ReadFile(args[i])
@@ -177,6 +186,9 @@ func (k *Check) matchKnown(sig string) *known {
 
 // Explore runs one named part (or replays it when --replay names it).
 func (k *Check) Explore(name string, cfg mc.Config, param any, body func(*mc.Ctx)) *mc.Result {
+	if k.only != "" && k.only != name {
+		return &mc.Result{Name: name, Notes: map[string]int64{}}
+	}
 	if k.worker != "" {
 		return &mc.Result{Name: name, Notes: map[string]int64{}}
 	}
@@ -223,6 +235,9 @@ func (k *Check) Explore(name string, cfg mc.Config, param any, body func(*mc.Ctx
 // ExploreProc is Explore with the subtrees explored by worker processes (for code with
 // process-global state or that may take the process down).
 func (k *Check) ExploreProc(name string, cfg mc.Config, param any, body func(*mc.Ctx)) *mc.Result {
+	if k.only != "" && k.only != name {
+		return &mc.Result{Name: name, Notes: map[string]int64{}}
+	}
 	if k.replay != nil {
 		return k.Explore(name, cfg, param, body)
 	}
@@ -257,6 +272,9 @@ func (k *Check) ExploreProc(name string, cfg mc.Config, param any, body func(*mc
 // scheduler: every process that executes the body does so inside one testing/synctest bubble
 // and never leaves it (the coordinator expands the tree through a worker).
 func (k *Check) ExploreSched(name string, cfg mc.Config, param any, body func(*mc.Ctx)) *mc.Result {
+	if os.Getenv("VERIF_MODE") == "plain" {
+		return k.companion(name, cfg)
+	}
 	k.sched = true
 	defer func() { k.sched = false }()
 	if cfg.RecycleAfter == 0 {
@@ -274,6 +292,52 @@ func (k *Check) ExploreSched(name string, cfg mc.Config, param any, body func(*m
 		synctest.Run(func() { mc.ServeWorker(name, cfg, param, body) })
 	}
 	return k.ExploreProc(name, cfg, param, body)
+}
+
+// companion runs a scheduler part of a check whose other parts need the uninstrumented build:
+// the instrumented build of the same check binary explores just that part and hands back its
+// result. (Replays of such a part are routed to the instrumented binary by ./check.)
+func (k *Check) companion(name string, cfg mc.Config) *mc.Result {
+	empty := &mc.Result{Name: name, Notes: map[string]int64{}}
+	if k.replay != nil || k.worker != "" || (k.only != "" && k.only != name) {
+		return empty
+	}
+	bin := os.Getenv("VERIF_SCHED_BIN")
+	if bin == "" {
+		fatal("part %q needs the instrumented build but VERIF_SCHED_BIN is not set", name)
+	}
+	dl := cfg.Deadline
+	if dl == 0 {
+		dl = k.deadline
+	}
+	remaining := dl - mc.Wall()
+	if remaining < 2 {
+		empty.Exhaustive = false
+		k.AddResult(empty)
+		return empty
+	}
+	f, err := os.CreateTemp("", "mcheck-part-*.json")
+	if err != nil {
+		fatal("companion: %v", err)
+	}
+	f.Close()
+	defer os.Remove(f.Name())
+	cmd := exec.Command(bin, k.ID, k.Tier, "--only", name, "--result-out", f.Name())
+	cmd.Env = append(os.Environ(), "VERIF_MODE=sched", fmt.Sprintf("VERIF_BUDGET=%.0f", remaining))
+	cmd.Stdout, cmd.Stderr = os.Stderr, os.Stderr
+	if err := cmd.Run(); err != nil {
+		fatal("companion for part %q: %v", name, err)
+	}
+	data, err := os.ReadFile(f.Name())
+	if err != nil {
+		fatal("companion result: %v", err)
+	}
+	r := &mc.Result{}
+	if err := json.Unmarshal(data, r); err != nil {
+		fatal("companion result: %v", err)
+	}
+	k.parts = append(k.parts, r)
+	return r
 }
 
 // AddResult lets a harness with its own enumeration loop contribute a part.
@@ -307,6 +371,18 @@ func (k *Check) Finish() {
 			fatal("replay part %q not found in check %s", k.replay.Part, k.ID)
 		}
 		os.Exit(0)
+	}
+	if k.only != "" {
+		for _, r := range k.parts {
+			if r.Name == k.only {
+				data, _ := json.Marshal(r)
+				if err := os.WriteFile(k.resOut, data, 0o644); err != nil {
+					fatal("write part result: %v", err)
+				}
+				os.Exit(0)
+			}
+		}
+		fatal("part %q not found in check %s", k.only, k.ID)
 	}
 	var execs, points, pruned int64
 	states, nontr, outcomes := 0, 0, 0
